@@ -136,6 +136,83 @@ FLIP = {"<": ">", "<=": ">=", ">": "<", ">=": "<=", "==": "==", "!=": "!="}
 OPS = {ast.Lt: "<", ast.LtE: "<=", ast.Gt: ">", ast.GtE: ">=", ast.Eq: "==", ast.NotEq: "!="}
 
 
+def parse_expr(e, subst):
+    """An integer expression over the inputs: 'M' | 'm' | ('neg', x) | ('add', x, c) | ('max'|'min', [x...]); None if not in the subset."""
+    if isinstance(e, ast.Name) and e.id in subst:
+        return subst[e.id]
+    if isinstance(e, ast.UnaryOp) and isinstance(e.op, ast.USub):
+        x = parse_expr(e.operand, subst)
+        return None if x is None else ("neg", x)
+    if isinstance(e, ast.UnaryOp) and isinstance(e.op, ast.UAdd):
+        return parse_expr(e.operand, subst)
+    if isinstance(e, ast.BinOp) and isinstance(e.op, (ast.Add, ast.Sub)):
+        l, r = parse_expr(e.left, subst), fold(e.right)
+        if l is not None and r is not None:
+            return ("add", l, r if isinstance(e.op, ast.Add) else -r)
+        l2, r2 = fold(e.left), parse_expr(e.right, subst)
+        if l2 is not None and r2 is not None:
+            return ("add", r2 if isinstance(e.op, ast.Add) else ("neg", r2), l2)
+        return None
+    if isinstance(e, ast.Call) and isinstance(e.func, ast.Name) and not e.keywords:
+        if e.func.id in ("max", "min") and len(e.args) >= 2:
+            xs = [parse_expr(a, subst) for a in e.args]
+            if all(x is not None for x in xs):
+                return (e.func.id, xs)
+            ks = [fold(a) for a in e.args]
+            # a constant operand: max(x, 0)
+            xs2 = [x if x is not None else (("const", k) if k is not None else None) for x, k in zip(xs, ks)]
+            if all(x is not None for x in xs2):
+                return (e.func.id, xs2)
+        if e.func.id == "abs" and len(e.args) == 1:
+            x = parse_expr(e.args[0], subst)
+            return None if x is None else ("max", [x, ("neg", x)])
+        if e.func.id == "int" and len(e.args) == 1:
+            return parse_expr(e.args[0], subst)
+    return None
+
+
+def _and(A, B):
+    return [a + b for a in A for b in B]
+
+
+def expr_cases(o, e, k):
+    """(true dnf, false dnf) of `e o k` for an expression of parse_expr."""
+    if isinstance(e, str):
+        tc, fc = atom_cases(o, e, k)
+        return [[(e,) + c] for c in tc], [[(e,) + c] for c in fc]
+    tag = e[0]
+    if tag == "const":
+        val = {"<": e[1] < k, "<=": e[1] <= k, ">": e[1] > k, ">=": e[1] >= k, "==": e[1] == k, "!=": e[1] != k}[o]
+        return ([[]], []) if val else ([], [[]])
+    if tag == "neg":
+        return expr_cases(FLIP[o], e[1], -k)
+    if tag == "add":
+        return expr_cases(o, e[1], k - e[2])
+    if tag in ("max", "min"):
+        if o in ("==", "!="):
+            t1, f1 = expr_cases("<=", e, k)
+            t2, f2 = expr_cases(">=", e, k)
+            t, f = _and(t1, t2), f1 + f2
+            return (t, f) if o == "==" else (f, t)
+        # max(xs) > k  <=>  some x > k ;  max(xs) < k  <=>  every x < k   (dually for min)
+        some = (tag == "max") == (o in (">", ">="))
+        parts = [expr_cases(o, x, k) for x in e[1]]
+        if some:
+            t = []
+            prefix = [[]]
+            for pt, pf in parts:
+                t += _and(prefix, pt)
+                prefix = _and(prefix, pf)
+            return t, prefix
+        f = []
+        prefix = [[]]
+        for pt, pf in parts:
+            f += _and(prefix, pf)
+            prefix = _and(prefix, pt)
+        return prefix, f
+    raise Undecided("expression form %r" % (tag,))
+
+
 def cond_dnf(test, subst):
     """-> (true_dnf, false_dnf); a dnf is a list of conjunctions; a conjunction is a list of
     (var, lo, hi)."""
@@ -173,15 +250,16 @@ def cond_dnf(test, subst):
             if type(op) not in OPS:
                 raise Undecided("comparison operator %s" % type(op).__name__)
             o = OPS[type(op)]
-            if isinstance(left, ast.Name) and left.id in subst and fold(right) is not None:
-                var, k = subst[left.id], fold(right)
-            elif isinstance(right, ast.Name) and right.id in subst and fold(left) is not None:
-                var, k, o = subst[right.id], fold(left), FLIP[o]
+            le, re_ = parse_expr(left, subst), parse_expr(right, subst)
+            if le is not None and fold(right) is not None:
+                ex, k = le, fold(right)
+            elif re_ is not None and fold(left) is not None:
+                ex, k, o = re_, fold(left), FLIP[o]
             else:
-                raise Undecided("comparison is not <variable> <op> <constant>: %s" % norm_src(test))
-            tc, fc = atom_cases(o, var, k)
-            alts_f += [a + [(var,) + c] for a in prefix for c in fc]
-            prefix = [a + [(var,) + c] for a in prefix for c in tc]
+                raise Undecided("comparison is not <expression over the inputs> <op> <constant>: %s" % norm_src(test))
+            tdnf, fdnf = expr_cases(o, ex, k)
+            alts_f += _and(prefix, fdnf)
+            prefix = _and(prefix, tdnf)
             left = right
         return prefix, alts_f
     raise Undecided("test shape %s" % type(test).__name__)
@@ -235,6 +313,11 @@ def enumerate_paths(fn):
             if isinstance(s.value, ast.Name) and s.value.id in subst:
                 ns = dict(subst)
                 ns[name] = subst[s.value.id]
+                return run(rest, box, ns, dvars, trace)
+            ex = parse_expr(s.value, subst)
+            if ex is not None and name not in (pmax, pmin):
+                ns = dict(subst)
+                ns[name] = ex
                 return run(rest, box, ns, dvars, trace)
             d = dtype_name(s.value)
             if d is not None:
@@ -441,6 +524,15 @@ def eval_tree(fn, M, m):
             return v
         if isinstance(e, ast.Name):
             return env[e.id]
+        if isinstance(e, ast.UnaryOp) and isinstance(e.op, (ast.USub, ast.UAdd)):
+            v = ev(e.operand)
+            return -v if isinstance(e.op, ast.USub) else v
+        if isinstance(e, ast.BinOp) and isinstance(e.op, (ast.Add, ast.Sub)):
+            a, b = ev(e.left), ev(e.right)
+            return a + b if isinstance(e.op, ast.Add) else a - b
+        if isinstance(e, ast.Call) and isinstance(e.func, ast.Name) and e.func.id in ("max", "min", "abs", "int"):
+            vals = [ev(a) for a in e.args]
+            return {"max": max, "min": min, "abs": lambda x: abs(x), "int": lambda x: x}[e.func.id](*vals) if e.func.id in ("abs", "int") else {"max": max, "min": min}[e.func.id](vals)
         if isinstance(e, ast.BoolOp):
             if isinstance(e.op, ast.And):
                 return all(ev(x) for x in e.values)
